@@ -259,6 +259,14 @@ class Evaluator:
             return self.eval(e.body if self.truth(self.eval(e.test, env, fi, depth)) else e.orelse, env, fi, depth)
         if isinstance(e, ast.Subscript):
             base = self.eval(e.value, env, fi, depth)
+            if isinstance(e.slice, ast.Slice):
+                lo = self.eval(e.slice.lower, env, fi, depth) if e.slice.lower is not None else None
+                hi = self.eval(e.slice.upper, env, fi, depth) if e.slice.upper is not None else None
+                stp = self.eval(e.slice.step, env, fi, depth) if e.slice.step is not None else None
+                try:
+                    return base[lo:hi:stp]
+                except Exception:
+                    raise EvalRaise("TypeError")
             k = self.eval(e.slice, env, fi, depth)
             try:
                 return base[k]
@@ -308,6 +316,12 @@ class Evaluator:
                     raise Unsupported(f"DataType method {m}")
                 if isinstance(recv, dict) and m == "get":
                     return recv.get(args[0], args[1] if len(args) > 1 else None)
+                if isinstance(recv, str) and m in ("startswith", "endswith", "isdigit", "isalpha", "isalnum", "lower", "upper", "strip", "lstrip", "rstrip",
+                                                   "removeprefix", "removesuffix", "partition", "rpartition", "split", "rsplit", "find", "count", "isidentifier"):
+                    try:
+                        return getattr(recv, m)(*args, **kwargs)
+                    except Exception:
+                        raise EvalRaise("TypeError")
                 raise Unsupported(f"method {m}")
         g = self.idx.resolve_func(fi.module, cn, cls=fi.cls, scope=fi) if cn else None
         if g is not None:
